@@ -224,6 +224,20 @@ def check_pair(case, plan=None):
         raise Violation("patch-out-of-bounds", "triple %s for a buffer of %d lines (script %s)" % (
             short(oob[0], 80), oob[1], short(escript, 200)))
 
+    # The same script, old and new text as lines WITHOUT their terminators (read().splitlines();
+    # the bare '.' is documented as a terminator for exactly this use): the same result, stripped.
+    nl = enc("\n")
+    # (not with an empty line in the script: stripped it is '', which the reader takes for the end
+    # of the stream - "end of stream in command" - as file.readline() reports it)
+    if all(l.endswith(nl) for l in eold + enew + escript) and nl not in escript:
+        bare = list(l[:-1] for l in eold)
+        patch_lines(bare, patches_from_ed_script(as_form([l[:-1] for l in escript], form)))
+        if bare != [l[:-1] for l in enew]:
+            raise Violation("wrong-result:lines-without-terminators", "old=%s script=%s, every line given without "
+                            "its newline, gives %s, expected %s" % (short(eold, 120), short(escript, 200),
+                                                                    short(bare, 120), short(enew, 120)))
+        labels.append("lines-without-terminators")
+
     # coverage labels
     labels += ["kind:pair", "bytes" if case.get("bytes") else "str", "form:" + form,
                "commands:%s" % (len(cmds) if len(cmds) < 4 else "4+")]
